@@ -1,6 +1,6 @@
 """C12 — declarative modelling resolves promises independently of declaration order.
 
-implementation: decl.apply (through decl.dump -> YAML -> decl.load) on freshly loaded test models
+implementation: decl.apply (through YDMDumper with sort_keys=False -> YAML -> decl.load) on freshly loaded test models
 correspondence: the Lean machine `Capella.Decl.apply` (Model/Decl.lean) on the same document in the same
                 order; compared: UUID-free canonical view (lists in order), promise map, error kind
 monitor:        (a) all permutations of a document give the same canonical view (exact, lists in order)
@@ -622,7 +622,14 @@ def run(ctx: Ctx) -> Outcome:
     for base in bases.values():
         do(base, subst_roots(WITNESS, base), "plain")
         do(base, subst_roots(WITNESS2, base), "plain")
-    ndocs = ctx.pick(110, 900)
+    # past disagreements (corpus), in their recorded orders
+    for f in sorted((common.VERIF / "corpus" / "C12").glob("*.json")):
+        c = json.loads(f.read_text())
+        base = bases[c["model"]]
+        d = subst_roots(c["doc"], base)
+        flav["corpus"] = flav.get("corpus", 0) + 1
+        run_doc(ctx, out, base, d, "plain", c["orders"], req, pending)
+    ndocs = ctx.pick(110, 650)
     for n in range(ndocs):
         r = rng.random()
         key = "empty52" if r < 0.75 else rng.choice([k for k in bases if k != "empty52"])
